@@ -59,6 +59,9 @@ const KINDS: &[Kind] = &[
     Kind { name: "type: field of imported int", body: &["x := @NS@.exp_q.nofield"], top: &[], either: false },
     Kind { name: "from-import of a missing name", body: &[], top: &["from @NS@ use (nope_q)"], either: false },
     Kind { name: "from-import colliding with a definition", body: &[], top: &["from @NS@ use (exp_q)", "exp_q :: 3"], either: true },
+    // the marker characters quoted mid-line further up do not shift the line of the real marker
+    Kind { name: "git conflict marker below the same characters quoted in a comment", body: &[], top: &["// resolved last week: <<<<<<< HEAD stood here", "<<<<<<< HEAD"], either: false },
+    Kind { name: "git conflict marker below the same characters inside a string", body: &[], top: &["note_q :: \"<<<<<<< ours\"", "    // indented: <<<<<<< theirs", "<<<<<<< HEAD"], either: false },
     // the same name imported from two different modules: the duplicate belongs to the importing file
     Kind { name: "one name from-imported from two modules", body: &[], top: &["from @NS@ use (exp_q)", "from @NS2@ use (exp_q)"], either: true },
     Kind { name: "one alias for names from-imported from two modules", body: &[], top: &["from @NS@ use (exp_q as al_q)", "from @NS2@ use (lit2_q as al_q)"], either: true },
@@ -279,7 +282,7 @@ impl Check for C15 {
         Finish {
             level: "exploration",
             rule: format!(
-                "one local error of {} kinds (syntax x9, unresolved name x2, duplicate global, assignment to constant, literal type mismatches x4, break outside loop, conflict marker, 5 multi-line calls whose offending argument is on a continuation line, 13 constructs that mention another file's namespace: unresolved/mistyped qualified accesses, namespace as value, from-imports) is planted at a known line of the main file, the first or a later imported file; the rest of the project is valid text of one of {} shapes (plain ASCII, non-ASCII comments/strings, string literals spanning lines, CRLF, tabs, 1500-3000 character lines, runs of blank lines, mixed). Oracle: file and span.line_start of the first returned error equal the planted file and line (either definition line for duplicates). Non-trivial & distinct: (kind, file position, shape, instance).",
+                "one local error of {} kinds (syntax x9, unresolved name x2, duplicate global, assignment to constant, literal type mismatches x4, break outside loop, conflict marker (also below the same characters quoted mid-line), 5 multi-line calls whose offending argument is on a continuation line, 13 constructs that mention another file's namespace: unresolved/mistyped qualified accesses, namespace as value, from-imports) is planted at a known line of the main file, the first or a later imported file; the rest of the project is valid text of one of {} shapes (plain ASCII, non-ASCII comments/strings, string literals spanning lines, CRLF, tabs, 1500-3000 character lines, runs of blank lines, mixed). Oracle: file and span.line_start of the first returned error equal the planted file and line (either definition line for duplicates). Non-trivial & distinct: (kind, file position, shape, instance).",
                 KINDS.len(),
                 SHAPES.len()
             ),
